@@ -110,6 +110,10 @@ pub const ENTER_SQ_WAKEUP: u32 = 1 << 1;
 pub const ENTER_SQ_WAIT: u32 = 1 << 2;
 pub const ENTER_EXT_ARG: u32 = 1 << 3;
 pub const ENTER_REGISTERED_RING: u32 = 1 << 4;
+pub const ENTER_ABS_TIMER: u32 = 1 << 5;
+pub const ENTER_EXT_ARG_REG: u32 = 1 << 6;
+pub const ENTER_NO_IOWAIT: u32 = 1 << 7;
+pub const ENTER_KNOWN: u32 = (1 << 8) - 1;
 
 // getevents_arg: sigmask u64 @0, sigmask_sz u32 @8, min_wait_usec u32 @12, ts u64 @16
 pub const GETEVENTS_ARG_SIZE: usize = 24;
